@@ -319,6 +319,7 @@ class Report:
             return False
         if len(self.violations) >= 8:
             self.violations.append((key, what, self.violations[-1][2]))
+            log(f"  (further violation, no separate replay file) key={json.dumps(key)} {what[:200]}")
             return True
         d = os.path.join(ROOT, "replays", self.prop)
         os.makedirs(d, exist_ok=True)
